@@ -254,7 +254,21 @@ static void blk_oneshot(void) {
 	}
 }
 /* GCM: all IV lengths 1..64, tag lengths, AAD lengths; SM4 against the generic reference, AES against OpenSSL */
-static void blk_gcm(void) {
+static void blk_gcm_wrap(void) { static uint8_t o[300], e[300], d[300];
+	/* counter wrap: 16-byte IVs constructed so that the pre-counter block J0 ends in chosen words; the 32-bit block counter then wraps
+	   (or carries into its third / fourth byte) inside a short message. inc32 must wrap mod 2^32 without touching the upper 96 bits. */
+	if (vh_block_begin("gcm-counter-wrap")) { static const uint32_t LOW[] = { 0x000000fe, 0x0000fffe, 0x00fffffe, 0x00ffffff, 0xfffffffe, 0xffffffff, 0x3cffffff, 0x7fffffff, 0xfffffffd };
+		for (int k = 0; k < 3; k++) for (int w = 0; w < 9; w++) { if (!vh_next()) continue; SM4_KEY sk; sm4_set_encrypt_key(&sk, KEYS[k]); AES_KEY ak; aes_set_encrypt_key(&ak, KEYS[k], 16); uint8_t j0[16], iv[16], chk[16], h[16], z16[16] = {0}; for (int i = 0; i < 12; i++) j0[i] = (uint8_t)(0xa0 + 7 * i + k); j0[11] = 0xff; j0[12] = (uint8_t)(LOW[w] >> 24); j0[13] = (uint8_t)(LOW[w] >> 16); j0[14] = (uint8_t)(LOW[w] >> 8); j0[15] = (uint8_t)LOW[w];
+			for (int alg = 0; alg < 2; alg++) { const mr_blk *B = alg ? AESR[k] : SM4R[k]; mr_gcm_iv_for_j0(B, j0, iv); mr_E(B, z16, h); mr_ghash(h, NULL, 0, iv, 16, chk); if (memcmp(chk, j0, 16)) vh_harness_error("IV construction for a chosen J0 failed");
+				const uint8_t *in = PT + 6000, *aad = PT + 1000; size_t n = 100, al = 5; uint8_t tag[16], et[16]; int r; char key[128]; mr_gcm(B, 1, iv, 16, aad, al, in, n, e, et, 16);
+				if (alg) { uint8_t ot[16]; long el = ref_cipher("AES-128-GCM", 1, 0, KEYS[k], iv, 16, aad, al, in, n, d, ot, 16); if (el != (long)n || memcmp(d, e, n) || memcmp(ot, et, 16)) vh_harness_error("mr_gcm disagrees with OpenSSL AES-GCM at a counter wrap (low word %08x)", LOW[w]); }
+				r = alg ? aes_gcm_encrypt(&ak, iv, 16, aad, al, in, n, o, 16, tag) : sm4_gcm_encrypt(&sk, iv, 16, aad, al, in, n, o, 16, tag); vh_eval(vh_mix(70000 + k * 100 + w * 2 + alg)); if (r != 1 || memcmp(o, e, n) || memcmp(tag, et, 16)) { snprintf(key, sizeof key, "C04:gcm-counter-wrap:%s_gcm_encrypt", alg ? "aes" : "sm4"); vh_viol(key, "\"j0_low_word\":\"%08x\",\"ret\":%d", LOW[w], r); }
+				r = alg ? aes_gcm_decrypt(&ak, iv, 16, aad, al, e, n, et, 16, d) : sm4_gcm_decrypt(&sk, iv, 16, aad, al, e, n, et, 16, d); vh_eval(vh_mix(71000 + k * 100 + w * 2 + alg)); if (r != 1 || memcmp(d, in, n)) { snprintf(key, sizeof key, "C04:gcm-counter-wrap:%s_gcm_decrypt", alg ? "aes" : "sm4"); vh_viol(key, "\"j0_low_word\":\"%08x\",\"ret\":%d", LOW[w], r); } } } }
+}
+static void blk_gcm_main(void);
+static void blk_gcm_tail(void);
+static void blk_gcm(void) { blk_gcm_main(); blk_gcm_tail(); }
+static void blk_gcm_main(void) {
 	if (!vh_block_begin("gcm")) return;
 	static const size_t AAD[] = { 0,1,2,3,4,5,6,7,8,9,10,11,12,13,14,15,16,17,18,19,20,21,22,23,24,25,26,27,28,29,30,31,32,33,4096 }, ML[] = { 0, 1, 15, 16, 17, 33, 64, 255 };
 	static uint8_t o[300], e[300], d[300]; uint8_t tag[16], et[16]; char key[128];
@@ -277,15 +291,9 @@ static void blk_gcm(void) {
 		}
 		vh_sample("{\"block\":\"gcm\",\"key\":%d,\"ivlen\":%zu,\"aadlen\":%zu}", k, ivl, AAD[ai]);
 	}
-	/* counter wrap: 16-byte IVs constructed so that the pre-counter block J0 ends in chosen words; the 32-bit block counter then wraps
-	   (or carries into its third / fourth byte) inside a short message. inc32 must wrap mod 2^32 without touching the upper 96 bits. */
-	if (vh_block_begin("gcm-counter-wrap")) { static const uint32_t LOW[] = { 0x000000fe, 0x0000fffe, 0x00fffffe, 0x00ffffff, 0xfffffffe, 0xffffffff, 0x3cffffff, 0x7fffffff, 0xfffffffd };
-		for (int k = 0; k < 3; k++) for (int w = 0; w < 9; w++) { if (!vh_next()) continue; SM4_KEY sk; sm4_set_encrypt_key(&sk, KEYS[k]); AES_KEY ak; aes_set_encrypt_key(&ak, KEYS[k], 16); uint8_t j0[16], iv[16], chk[16], h[16], z16[16] = {0}; for (int i = 0; i < 12; i++) j0[i] = (uint8_t)(0xa0 + 7 * i + k); j0[11] = 0xff; j0[12] = (uint8_t)(LOW[w] >> 24); j0[13] = (uint8_t)(LOW[w] >> 16); j0[14] = (uint8_t)(LOW[w] >> 8); j0[15] = (uint8_t)LOW[w];
-			for (int alg = 0; alg < 2; alg++) { const mr_blk *B = alg ? AESR[k] : SM4R[k]; mr_gcm_iv_for_j0(B, j0, iv); mr_E(B, z16, h); mr_ghash(h, NULL, 0, iv, 16, chk); if (memcmp(chk, j0, 16)) vh_harness_error("IV construction for a chosen J0 failed");
-				const uint8_t *in = PT + 6000, *aad = PT + 1000; size_t n = 100, al = 5; uint8_t tag[16], et[16]; int r; char key[128]; mr_gcm(B, 1, iv, 16, aad, al, in, n, e, et, 16);
-				if (alg) { uint8_t ot[16]; long el = ref_cipher("AES-128-GCM", 1, 0, KEYS[k], iv, 16, aad, al, in, n, d, ot, 16); if (el != (long)n || memcmp(d, e, n) || memcmp(ot, et, 16)) vh_harness_error("mr_gcm disagrees with OpenSSL AES-GCM at a counter wrap (low word %08x)", LOW[w]); }
-				r = alg ? aes_gcm_encrypt(&ak, iv, 16, aad, al, in, n, o, 16, tag) : sm4_gcm_encrypt(&sk, iv, 16, aad, al, in, n, o, 16, tag); vh_eval(vh_mix(70000 + k * 100 + w * 2 + alg)); if (r != 1 || memcmp(o, e, n) || memcmp(tag, et, 16)) { snprintf(key, sizeof key, "C04:gcm-counter-wrap:%s_gcm_encrypt", alg ? "aes" : "sm4"); vh_viol(key, "\"j0_low_word\":\"%08x\",\"ret\":%d", LOW[w], r); }
-				r = alg ? aes_gcm_decrypt(&ak, iv, 16, aad, al, e, n, et, 16, d) : sm4_gcm_decrypt(&sk, iv, 16, aad, al, e, n, et, 16, d); vh_eval(vh_mix(71000 + k * 100 + w * 2 + alg)); if (r != 1 || memcmp(d, in, n)) { snprintf(key, sizeof key, "C04:gcm-counter-wrap:%s_gcm_decrypt", alg ? "aes" : "sm4"); vh_viol(key, "\"j0_low_word\":\"%08x\",\"ret\":%d", LOW[w], r); } } } }
+}
+static void blk_gcm_tail(void) {
+	blk_gcm_wrap();
 	/* ghash / gf128 primitives */
 	if (!vh_block_begin("ghash")) return;
 	for (size_t al = 0; al <= 40; al++) for (size_t cl = 0; cl <= 40; cl++) { if (!vh_next()) continue; uint8_t g[16], r[16]; ghash(KEYS[2], PT + 3, al, PT + 77, cl, g); mr_ghash(KEYS[2], PT + 3, al, PT + 77, cl, r); vh_eval(vh_hash(&al, 8, cl + 50)); if (memcmp(g, r, 16)) vh_viol("C04:ghash", "\"aadlen\":%zu,\"clen\":%zu", al, cl);
